@@ -228,6 +228,20 @@ def _lower_returns(stmts: List[ast.stmt], emit, k: Optional[List[ast.stmt]] = No
             new = ast.If(test=s.test, body=b or [ast.Pass()], orelse=o)
             out.append(ast.copy_location(new, s))
             return out, (br or False) and (orr or False) if False else _never_falls(out)
+        if isinstance(s, ast.Try) and i == len(stmts) - 1 and not k and not s.finalbody:
+            # a trailing try whose blocks end in returns: each return becomes the emission, still inside its block (the value
+            # was evaluated there before, too); nothing follows, so control leaves the inlined body afterwards
+            def block(b):
+                if not _contains_return(b):
+                    return b
+                if any(isinstance(x, ast.Return) for x in b[:-1]) or not isinstance(b[-1], (ast.Return, ast.If)):
+                    raise Unsupported("return in the middle of a try block")
+                nb, _ = _lower_returns(b, emit, [])
+                return nb
+            new = ast.Try(body=block(s.body), handlers=[ast.copy_location(ast.ExceptHandler(type=h.type, name=h.name, body=block(h.body)), h) for h in s.handlers],
+                          orelse=block(s.orelse) if s.orelse else [], finalbody=[])
+            out.append(ast.copy_location(new, s))
+            return out, False
         raise Unsupported(f"return inside {type(s).__name__}")
     out.extend(k)
     return out, _never_falls(out)
@@ -565,6 +579,8 @@ class Inliner:
             return True
         if isinstance(s, ast.If) and s.orelse:
             return Inliner._always_returns(s.body) and Inliner._always_returns(s.orelse)
+        if isinstance(s, ast.Try) and not s.finalbody:
+            return Inliner._always_returns(s.orelse or s.body) and all(Inliner._always_returns(h.body) for h in s.handlers)
         return False
 
     def _fresh(self, base: str, taken: Set[str]) -> str:
